@@ -27,7 +27,7 @@ MUTATORS = ["norm", "asexp", "asexp_rev", "early", "diff_early", "embed", "at", 
 
 def jobs(tier, seed):
     js = []
-    pools = ["A", "B", "C", "D", "E", "F", "G", "H", "I", "J", "K", "L"]
+    pools = ["A", "B", "C", "D", "E", "F", "G", "H", "I", "J", "K", "L", "M"]
     hists = []
     for pool in pools:
         for t in ("e1", "e2", "e3", "s"):
@@ -53,10 +53,18 @@ def jobs(tier, seed):
             hists.append({"pool": pool, "hist": [["mk", "P", "diff_early", t], ["mk", "Q", "diff", t], ["qat", "P", "q"], ["qat", "Q", "q"], ["qat", "P", "p"]]})
             hists.append({"pool": pool, "hist": [["norm", t], ["asexp", t]], "keep": ["asexp", t]})
             hists.append({"pool": pool, "hist": [["asexp", t], ["norm", t], ["at", t, "q"]], "keep": ["norm", t]})
+    always = []
+    for t in ("e1", "e2", "e3", "n"):
+        # the SAME object simplified / differentiated symbolically four and five times (in-place edits of a flagged object show late)
+        always.append({"pool": "M", "hist": [["norm", t]] * 4})
+        always.append({"pool": "M", "hist": [["norm", t]] * 5 + [["asexp", t]]})
+        always.append({"pool": "M", "hist": [["asexp", t]] * 3 + [["asexp_rev", t]] * 2})
+        always.append({"pool": "M", "hist": [["diff_early", t, "q"]] * 2 + [["norm", t]] * 2})
+        always.append({"pool": "H", "hist": [["norm", t if t != "n" else "m"]] * 5})
     if tier == "quick":
-        hists = hists[::3] + [h for h in hists if len(h["hist"]) >= 2][1::4]
+        hists = hists[::3] + [h for h in hists if len(h["hist"]) >= 2][1::4] + always
     else:
-        hists += [{"pool": s["pool"], "hist": s["hist"]} for s in c09.long_lived()[::2] + c09.composed()]
+        hists += always + [{"pool": s["pool"], "hist": s["hist"]} for s in c09.long_lived()[::2] + c09.composed()]
     for t in ("e1", "e3"):      # inside the region of known finding D3 (a late Partial switches to the mis-simplified derivative after as_expression())
         hists.append({"pool": "F", "hist": [["mk", "P", "partial", t], ["q", "P", "q"], ["qasexp", "P"], ["q", "P", "p"]]})
     for h in hists:
